@@ -21,7 +21,7 @@ use crate::util::*;
 pub const PROP: Prop = Prop {
     id: "C13",
     level: "exploration",
-    rule: "texts beyond the printer's image: G_layout renderings with every alternative spelling (radix prefixes, signs, leading zeros, exponent forms, escapes, character names, bracket lists, dotted proper lists, quote shorthands, every enabled keyword spelling, Emacs string/char escapes, unibyte strings), lenient symbols with unusual constituents (\" # ' , | { } \\ and non-alphabetic non-ASCII after the first character), digit-initial symbols, Racket #% symbols, plus mutated/token/byte inputs filtered to the accepted ones (acceptance rate measured); option sets: default, Emacs Lisp and sampled mixed sets with printer_for(Q) (DESIGN.md A.3); oracle: v = parse(text), t = print(v), parse(t) must equal M_fold(P,Q,v) within the C05 tolerance, and when every float is exactly representable by the reader print(parse(t)) == t (one step later where the documented folding changes the value); non-trivial = the input text differs from t; distinct by digest of (text, options)",
+    rule: "(plus a near-limit sub-run: nesting depth 118-130 through generated mixtures of every nesting construct with the innermost construct drawn separately, so that what is still accepted right at the recursion limit is printed and read back) texts beyond the printer's image: G_layout renderings with every alternative spelling (radix prefixes, signs, leading zeros, exponent forms, escapes, character names, bracket lists, dotted proper lists, quote shorthands, every enabled keyword spelling, Emacs string/char escapes, unibyte strings), lenient symbols with unusual constituents (\" # ' , | { } \\ and non-alphabetic non-ASCII after the first character), digit-initial symbols, Racket #% symbols, plus mutated/token/byte inputs filtered to the accepted ones (acceptance rate measured); option sets: default, Emacs Lisp and sampled mixed sets with printer_for(Q) (DESIGN.md A.3); oracle: v = parse(text), t = print(v), parse(t) must equal M_fold(P,Q,v) within the C05 tolerance, and when every float is exactly representable by the reader print(parse(t)) == t (one step later where the documented folding changes the value); non-trivial = the input text differs from t; distinct by digest of (text, options)",
     assumptions: &[
         "printer_for(Q) as tabulated in DESIGN.md A.3",
         "floats are 'exactly representable by the reader' always in the noff build, and in the ff build when the printed form has <=15 significant digits, fits 2^53 and |exponent|<=22 under every reading",
@@ -146,6 +146,7 @@ pub fn check_case(c: &Case, label: &str) -> CaseResult {
                 "lenient-symbols" => "from:lenient-symbols",
                 "digit-symbols" => "from:digit-symbols",
                 "racket" => "from:racket",
+                "near-limit-nesting" => "from:near-limit-nesting",
                 _ => "from:mutated-or-random",
             });
             if !fold_is_identity(&p, &q, &mv) {
@@ -196,6 +197,8 @@ fn g_lenient_symbols() -> BS<(Case, &'static str)> {
             4 => "[a-z0-9]",
             4 => prop_oneof![Just("\""), Just("#"), Just("'"), Just(","), Just("|"), Just("{"), Just("}"), Just("\\"), Just("`"), Just("@"), Just("?"), Just(":"), Just("."), Just("+"), Just("-")].prop_map(|s| s.to_string()),
             2 => prop_oneof![Just('→'), Just('€'), Just('\u{1F600}'), Just('\u{a0}'), Just('\u{2028}'), Just('\u{85}'), Just('٣'), Just('\u{301}')].prop_map(|c| c.to_string()),
+            // control characters that are not whitespace are symbol constituents too
+            1 => prop_oneof![Just('\u{0}'), Just('\u{1}'), Just('\u{8}'), Just('\u{b}'), Just('\u{1b}'), Just('\u{7f}')].prop_map(|c| c.to_string()),
         ],
         0..6,
     )
@@ -252,6 +255,23 @@ fn g_racket() -> BS<(Case, &'static str)> {
         .boxed()
 }
 
+/// Texts nested right around the recursion limit through mixtures of every
+/// nesting construct: what the parser still accepts there must still be
+/// readable once printed (the printer spells shorthands out as lists).
+fn g_near_limit() -> BS<(Case, &'static str)> {
+    (vec(0u8..9, 118..=130), g_qopt_index(), any::<bool>(), 0u8..9)
+        .prop_map(|(kinds, q, uniform, last)| {
+            let mut kinds = if uniform { vec![kinds[0]; kinds.len()] } else { kinds };
+            // the innermost construct decides which rule draws the line
+            if let Some(k) = kinds.last_mut() {
+                *k = last;
+            }
+            let (text, _) = crate::props::c03::nest_text(&crate::props::c03::Nest { kinds, q });
+            (Case { text: text.into_bytes(), q }, "near-limit-nesting")
+        })
+        .boxed()
+}
+
 pub fn g_case(max_len: usize) -> BS<(Case, &'static str)> {
     prop_oneof![
         5 => g_layout_text(),
@@ -273,6 +293,7 @@ fn run(ctx: &mut Ctx) {
         .map(|w| {
             let mut c = parent.fork();
             c.run_prop(&format!("texts/{}", w), tier.pick(6_000, 200_000), g_case(max_len), |(c, l)| check_case(c, l));
+            c.run_prop(&format!("near-limit/{}", w), tier.pick(300, 6_000), g_near_limit(), |(c, l)| check_case(c, l));
             c
         })
         .collect();
@@ -290,11 +311,24 @@ fn run(ctx: &mut Ctx) {
     }
     ctx.required_classes = vec![
         "input:accepted", "q:default", "q:elisp", "q:mixed", "from:layout", "from:lenient-symbols", "from:digit-symbols",
-        "from:racket", "from:mutated-or-random", "fold:non-identity", "floats:exact",
+        "from:racket", "from:mutated-or-random", "from:near-limit-nesting", "fold:non-identity", "floats:exact",
     ];
 }
 
 fn replay(_sub: &str, case: &Json) -> Option<CaseResult> {
     let c: Case = serde_json::from_value(case.get("case")?.clone()).ok()?;
     Some(check_case(&c, case.get("label").and_then(|l| l.as_str()).unwrap_or("x")))
+}
+
+/// libFuzzer entry: raw text (mode even) or a generated one.
+pub fn fuzz(f: &mut FuzzIn) -> Option<CaseResult> {
+    if f.mode % 2 == 0 {
+        let (q, input) = f.raw_q_input();
+        if input.len() > 300 {
+            return None;
+        }
+        return Some(check_case(&Case { text: input.to_vec(), q }, "anybytes"));
+    }
+    let (c, l) = f.draw(&g_case(200))?;
+    Some(check_case(&c, l))
 }
